@@ -631,6 +631,19 @@ def runOp (op : String) (args : List String) : String :=
   | "zone.run", args => zoneOp false args
   | "spec.zone", args => zoneOp true args
   | "codec.pack", typ :: vals => codecPack typ vals
+  | "generic.print", [rd] => (match (if rd == "-" then some [] else unhex rd) with
+      | some b => hex (Generic.printGeneric (Generic.hexOf b))
+      | none => "bad-op")
+  | "generic.parse", [typ, line] => (match unhex line with
+      | some l =>
+        (match Generic.parseGeneric (TxtParse.rdataTokens ((Lex.lexAll l).map (·.1))) with
+          | none => "none"
+          | some h =>
+            (match Generic.fromGeneric typ h with
+              | some (some vals) => (" ".intercalate (vals.map showVal)).trimAscii.toString
+              | some none => "no-rdata"
+              | none => "none"))
+      | none => "bad-op")
   | "codec.unpack", [typ, rd] => codecUnpack typ rd
   | "len.rr", typ :: owner :: toks => lenRROp typ owner toks
   | "msg.len", [m] =>
